@@ -51,30 +51,9 @@ def _table(test, lhs, rhs):
 
 def memo_rule(ctx: Ctx, rid: str):
     """Memo-key soundness in everything reachable from available()/onShift() (C02 R02.8 / C08 R08.9)."""
-    repo = ctx.repo
-    avail = repo.func("ResourceScenario.available")
-    onshift = repo.func("ResourceScenario.onShift")
-    from ..memo import control_ok, memo_findings
-    if not control_ok():
-        raise AnchorMissing("memo-key rule: built-in control sample no longer matches")
-    scope = sorted(ctx.cg.reach([avail, onshift]), key=lambda f: f.key)
-    nmemo = 0
-    for fn in scope:
-        if not isinstance(fn.node, (ast.FunctionDef, ast.AsyncFunctionDef)):
-            continue
-        found = memo_findings(fn.node)
-        nmemo += 1
-        by_store = {}
-        for cont, key, p, st in found:
-            by_store.setdefault((cont, norm(key)), (st, []))[1].append(p)
-        for (cont, k), (st, lost) in sorted(by_store.items()):
-            ctx.ob(rid, f"{fn.qual}: entry {cont}[{k}]", (fn, st), False,
-                   f"a value computed from {', '.join(lost)} is stored under a key that does not contain {', '.join(lost)} itself "
-                   f"(only a projection of it, or nothing): later calls with a different {lost[0]} that maps to the same key are "
-                   "answered with the first call's value",
-                   key=key_of(rid, fn, None, f"{cont} lost {','.join(lost)}"))
-    ctx.ob(rid, f"memo-key soundness over {nmemo} functions reachable from available()/onShift()", avail, True,
-           "no container entry is keyed by less than the parameters its value was computed from", nontrivial=False)
+    from .common import process_state_rule
+    process_state_rule(ctx, rid, [ctx.repo.func("ResourceScenario.available"), ctx.repo.func("ResourceScenario.onShift")],
+                       "the calendar answer for one slot is given for another", census=False)
 
 
 def run(ctx: Ctx):
